@@ -10,6 +10,19 @@
    and adds the glue: what trees the two readings can produce ([shape],
    [jshape]), that both readings are stable under extension of the input
    (framing), and the token-level form of the normalisations. *)
+(* MAIN RESULTS (each followed by Print Assumptions; all closed):
+     flatten_inj, grammar_ok_wf                       token lists <-> value trees
+   1 pump_c2c_value, pump_c2c_idempotent              CBOR -> CBOR preserves the tokens exactly
+   2 pump_c2c_error, pump_c2c_err_iff(_tokens)        ... and fails exactly on ill-formed input / bad keys
+   3 pump_j2c_value, pump_j2c_total, pump_j2c_err_iff JSON -> CBOR, tokens modulo [canon_tok]
+   4 pump_c2j_value (Section, oracle hypothesis Hflt), pump_c2j_value_float_free,
+     pump_c2j_unrepresentable, pump_c2j_ok_iff, pump_c2j_err_iff
+   5 pump_roundtrip_cjc, pump_roundtrip_jcj, pump_roundtrip_jcj_same (+ _float_free instances)
+   6 dec_run_frame, dec_many_concat, dec_many_encoded,
+     jdec_run_frame, jdec_run_ws, jdec_many_concat, jdec_many_encoded
+   REFUTATIONS of the statements as first asked:
+     pump_c2c_keys_refuted, pump_c2c_bytes_refuted, pump_cap_refuted (+ pump_c2c_chunks_concatenate),
+     pump_j2c_same_tokens_refuted, pump_roundtrip_jcj_same_refuted, jdec_run_frame_number_refuted. *)
 From Coq Require Import List ZArith Bool Lia ZifyBool ZifyNat.
 Require Import Tok TokGrammar TokGrammarProof CborSpec CborEnc CborEncProof CborDec CborParse
                CborDecProof CborRoundtrip Utf8 JsonEnc JsonFloat JsonDec JsonParse JsonDecProof
@@ -2520,3 +2533,98 @@ Example ex_cbor_stream :
     Some ([[Tok (ArrOpen 2) None; Tok (Uint 1) None; Tok (Uint 2) None; Tok ArrClose None];
            [Tok Null None]], [9]).
 Proof. vm_compute. reflexivity. Qed.
+
+(* ---------- CBOR -> JSON: the error side, in one statement ------------------ *)
+
+Theorem pump_c2j_err_iff : forall sh o c bs,
+  pump_c2j sh o c bs = PumpErr <->
+  (exists e toks a, dec_run c bs = DFail e toks a) \/
+  (exists toks rest a, dec_run c bs = DOk toks rest a /\
+                       (json_repr_all toks = false \/ json_keys_ok toks = false)).
+Proof.
+  intros sh o c bs. split.
+  - intros Hp. destruct (dec_total c bs) as [(toks & rest & a & H)|(e & toks & a & H)]; [|left; eauto].
+    right. exists toks, rest, a. split; [exact H|].
+    destruct (json_repr_all toks) eqn:Hr; [|left; reflexivity].
+    destruct (json_keys_ok toks) eqn:Hk; [|right; reflexivity].
+    destruct (proj2 (pump_c2j_ok_iff sh o c bs toks rest a H) (conj Hr Hk)) as [out Ho].
+    rewrite Hp in Ho. discriminate.
+  - intros [(e & toks & a & H)|(toks & rest & a & H & Hbad)].
+    + eapply pump_c2j_error; eauto.
+    + destruct (pump_c2j sh o c bs) as [out r|] eqn:Hp; [|reflexivity]. exfalso.
+      assert (r = rest).
+      { unfold pump_c2j in Hp. rewrite H in Hp.
+        destruct (jenc_tokens sh o toks) as [chunks k| | |]; try discriminate.
+        destruct (Nat.eqb k (length toks)); [|discriminate]. inversion Hp. reflexivity. }
+      subst r.
+      destruct (proj1 (pump_c2j_ok_iff sh o c bs toks rest a H) (ex_intro _ out Hp)) as [Hr Hk].
+      destruct Hbad; congruence.
+Qed.
+Print Assumptions pump_c2j_err_iff.
+
+(* a byte string, a NaN, an integer key: each is a pump error (never a panic) *)
+Example ex_c2j_errors :
+  let sh := fun _ : Z => ([], 0) in
+  let o := JOpts None [] in
+  pump_c2j sh o false [65; 1] = PumpErr /\
+  pump_c2j sh o false [129; 249; 126; 0] = PumpErr /\
+  pump_c2j sh o false [161; 1; 2] = PumpErr.
+Proof. vm_compute. repeat split; reflexivity. Qed.
+
+(* ---------- float-free round trips (no oracle hypothesis) ------------------- *)
+
+Definition str_valid (t : token) : bool :=
+  match tv t with Str s => valid_utf8 s | _ => true end.
+
+Theorem pump_roundtrip_cjc_float_free : forall sh o c c' bs toks rest a,
+  ws_opts o -> bytes_ok bs -> dec_run c bs = DOk toks rest a ->
+  forallb jtok_plain toks = true -> json_keys_ok toks = true ->
+  str_cap_ok (map (jnorm_tok VFlt) toks) = true ->
+  exists j out2,
+    pump_c2j sh o c bs = PumpOk j rest /\
+    pump_j2c j = PumpOk out2 (jtail o toks) /\
+    forall tail, exists a',
+      dec_run c' (out2 ++ tail) = DOk (map canon_tok (map (jnorm_tok VFlt) toks)) tail a'.
+Proof.
+  intros sh o c c' bs toks rest a Ho Hb H Hp Hk Hcap.
+  exact (pump_roundtrip_cjc sh no_float_ok VFlt (no_float_hyp sh) o c c' bs toks rest a Ho Hb H
+           (jtok_plain_ok _ Hp) Hk Hcap).
+Qed.
+
+(* JSON -> CBOR -> JSON gives back the very same tokens for float-free
+   documents whose strings are valid UTF-8 *)
+Theorem pump_roundtrip_jcj_same_float_free : forall sh o c bs toks rest,
+  ws_opts o -> jdec_run bs = JDOk toks rest -> str_cap_ok toks = true ->
+  forallb jtok_plain toks = true -> forallb str_valid toks = true ->
+  exists cb out2,
+    pump_j2c bs = PumpOk cb rest /\
+    pump_c2j sh o c cb = PumpOk out2 [] /\
+    jdec_run out2 = JDOk toks (jtail o toks).
+Proof.
+  intros sh o c bs toks rest Ho H Hcap Hp Hv.
+  apply (pump_roundtrip_jcj_same sh no_float_ok VFlt (no_float_hyp sh) o c bs toks rest Ho H Hcap
+           (jtok_plain_ok _ Hp)).
+  apply Forall_forall. intros [v tg] Hx. rewrite forallb_forall in Hv. specialize (Hv _ Hx).
+  unfold str_valid, jstable_tok in *. cbn [tv] in *. destruct v; auto.
+Qed.
+
+Print Assumptions pump_roundtrip_cjc_float_free.
+Print Assumptions pump_roundtrip_jcj_same_float_free.
+
+Example ex_json_roundtrip :
+  let sh := fun _ : Z => ([], 0) in
+  let o := JOpts None [] in
+  match jdec_run [123; 34; 107; 34; 58; 91; 49; 44; 45; 50; 93; 125] with
+  | JDOk toks rest =>
+      str_cap_ok toks = true /\ forallb jtok_plain toks = true /\ forallb str_valid toks = true /\
+      match pump_j2c [123; 34; 107; 34; 58; 91; 49; 44; 45; 50; 93; 125] with
+      | PumpOk cb _ =>
+          match pump_c2j sh o false cb with
+          | PumpOk out2 _ => jdec_run out2 = JDOk toks []
+          | PumpErr => False
+          end
+      | PumpErr => False
+      end
+  | _ => False
+  end.
+Proof. vm_compute. repeat split; reflexivity. Qed.
